@@ -17,7 +17,7 @@ CLS = ['own', 'content', 'nofile', 'network']
 
 def leg_a(ctx):
     consts = {'SIZES': {1, 4, 7, 8}, 'MAXB': 4 if ctx.thorough else 3, 'LIMITS': {0, 1, 2, 3, 5}, 'MAXPASS': 2,
-              'ADDS': 1 if not ctx.thorough else 1, 'Q': 4}
+              'ADDS': 1 if not ctx.thorough else 1, 'Q': 4, 'PARTIAL': False, 'PHANTOM': False}
     if ctx.thorough:
         consts['LIMITS'] = {0, 1, 3, 5}
     res = tlc.run('DiskClean', tlc.make_cfg(constants=consts, invariants=INVS), ctx, timeout=3000, label='DiskClean-MC')
@@ -25,6 +25,17 @@ def leg_a(ctx):
     if res.violated:
         ctx.violation('model:' + res.violated[0], f'model invariant {res.violated[0]} violated', res.error_trace[:6000])
     tlc.require_coverage(res, ['CleanWith', 'AddBlob'], 'DiskClean')
+    # partly downloaded streams in the initial population (pending rows, nothing on disk), smaller configuration
+    part = dict(consts, SIZES={4, 7, 8}, MAXB=3, LIMITS={0, 1, 3}, PARTIAL=True)
+    res = tlc.run('DiskClean', tlc.make_cfg(constants=part, invariants=INVS), ctx, timeout=3000, label='DiskClean-partial')
+    ctx.add_tlc(res, f'DiskClean exhaustive with partly downloaded streams {part}')
+    if res.violated:
+        ctx.violation('model:partial:' + res.violated[0], f'model invariant {res.violated[0]} violated', res.error_trace[:6000])
+    # negative control: pending rows as candidates, credited with their announced length
+    r = tlc.run('DiskClean', tlc.make_cfg(constants=dict(part, PHANTOM=True), invariants=INVS), ctx, coverage=False, timeout=3000, label='DiskClean-phantom')
+    if not r.violated:
+        raise MachineryError('negative control failed: crediting blobs that are not on disk should violate a clause in the model')
+    ctx.leg('A', negative_control_phantom_credit=r.violated[0])
     # reachability witnesses on a small configuration (behaviours of it are behaviours of the big one)
     small = dict(consts, MAXB=2, SIZES={4, 7, 8})
     for w in WITNESSES:
@@ -175,7 +186,7 @@ def leg_c(ctx):
         ctx.count((repr(blobs), climit, nlimit, tuple(steps)), nontrivial=len(blobs) >= 2)
         if k < 3 or (deleted and len(ctx.cov['samples']) < 6):
             ctx.sample(tr)
-    cfg = tlc.make_cfg(spec='TSpec', constants={'SIZES': set(), 'MAXB': 0, 'LIMITS': set(), 'MAXPASS': 1000, 'ADDS': 1000, 'Q': MIB},
+    cfg = tlc.make_cfg(spec='TSpec', constants={'SIZES': set(), 'MAXB': 0, 'LIMITS': set(), 'MAXPASS': 1000, 'ADDS': 1000, 'Q': MIB, 'PARTIAL': True, 'PHANTOM': False},
                        invariants=INVS, constraint='Reached', postcondition='Report')
     verdicts = tlc.validate_traces('DiskCleanTrace', cfg, traces, ctx, label='DiskCleanTrace')
     drift = sum(1 for v in verdicts if v.get('drift'))
